@@ -170,6 +170,39 @@ def server_reply(version: int, ti: int, ext: bool, body: bytes, outcome: int, ei
     return _check_one_reply(h, pktid, (rt, S.FXP_STATUS))
 
 
+BAD_NAMES = [b'ok', b'\xff', b'ro\xff\xfeot', b'\xc3', b'\xed\xa0\x80']
+
+
+def attrs_bad_names(version: int, req: int, oi: int, gi: int, pipelined: bool) -> bool:
+    """A structurally well-formed request whose attribute block carries an owner
+    or group name that is not valid UTF-8 (versions 4-6): exactly one reply for
+    that request id - an error STATUS when a name is invalid - the handler
+    returns normally, and a following request is still answered."""
+    owner, group = pick(BAD_NAMES, oi), pick(BAD_NAMES, gi)
+    attrs = UInt32(0x80) + Byte(1) + String(owner) + String(group)          # flags = OWNERGROUP, type = regular
+    reqs = [(S.FXP_SETSTAT, String(b'/p') + attrs), (S.FXP_MKDIR, String(b'/p') + attrs),
+            (S.FXP_OPEN, String(b'/p') + UInt32(1) + UInt32(0x3) + attrs if version >= 5 else String(b'/p') + UInt32(1) + attrs)]
+    pkttype, body = pick(reqs, req)
+    h = _handler(version, 0, errno.ENOENT)
+    r = _drive(h._process_packet(pkttype, 9, SSHPacket(body)))
+    if r[0] != 'ret':
+        return False                     # the exception escaped the request handler: the session dies, no reply
+    if len(h._writer.pkts) != 1:
+        return False
+    first = h._writer.pkts[0]
+    if int.from_bytes(first[1:5], 'big') != 9:
+        return False
+    bad = owner != b'ok' or group != b'ok'
+    if bad and first[0] != S.FXP_STATUS:
+        return False
+    if bad and int.from_bytes(first[5:9], 'big') == 0:
+        return False                     # FX_OK for a request that was rejected
+    if pipelined:
+        r2 = _drive(h._process_packet(S.FXP_RMDIR, 10, SSHPacket(String(b'/q'))))
+        return r2[0] == 'ret' and len(h._writer.pkts) == 2 and int.from_bytes(h._writer.pkts[1][1:5], 'big') == 10
+    return True
+
+
 def server_ext_name(version: int, cut: int) -> bool:
     """FXP_EXTENDED whose name string itself is truncated still gets one
     STATUS reply with the request id."""
@@ -522,6 +555,9 @@ OBLIGATIONS = [
        functions=[S.SFTPServerHandler._process_packet, SFTPError.encode], bounds='15 errno values x 3 operations x versions 3..6'),
     Ob('error_encode', error_encode, sym=dict(code=R(0, 40)), shards=dict(version=[3, 4, 5, 6]), timeout=90,
        functions=[SFTPError.encode], bounds='status codes 0..40 x versions 3..6'),
+    Ob('attrs_bad_names', attrs_bad_names, sym=dict(req=R(0, 2), oi=R(0, 4), gi=R(0, 4), pipelined=B), shards=dict(version=[4, 5, 6]), timeout=200,
+       functions=[S.SFTPServerHandler._process_packet, S.SFTPAttrs.decode, S.SFTPError.encode],
+       bounds='SETSTAT / MKDIR / OPEN in versions 4-6 with an OWNERGROUP attribute block whose owner and group are each one of 5 byte strings (valid, lone 0xff, mixed, truncated sequence, encoded surrogate); optionally followed by a second request'),
     Ob('client_waiters', client_waiters, sym=dict(n=R(0, 3), start_i=R(0, 3), reply_i=R(0, 3), rtype=R(0, 255), cancel_i=R(-1, 2)),
        shards=dict(rtype=[101, 105]), timeout=120,
        functions=[S.SFTPClientHandler._send_request, S.SFTPClientHandler._process_packet, S.SFTPClientHandler._cleanup],
